@@ -65,9 +65,6 @@ VARIABLES
     destroyed, \* ~scheduler ran
     now,       \* the (virtual) clock; constant 0 in manual mode
     gen,       \* manual, interval(): [st, stp]  st: "none" | "sleep" | "yield" | "done"; stp: stop requested
-    quiet,     \* ghost (manual): the last call changed nothing.  A call without effect (cancel() -> false)
-               \*   would be a self-loop of the state graph, which the path cover does not walk; with this
-               \*   flag it is a transition that is replayed like any other.
     \* start mode
     rq,        \* coro_queue: FIFO of ready entities (0 = worker coroutine, c >= 1 = client coroutines)
     run,       \* entity that executes now, -1 nobody
@@ -80,7 +77,7 @@ VARIABLES
     wdl,       \* deadline the worker is about to wait_until
     phase      \* "manual" | "pre" (awaitable started, worker not yet) | "run" | "returned" | "destroyed" | "hung"
 
-vars == <<heap, fut, nops, destroyed, now, gen, quiet, rq, run, cst, stop, wpc, wdl, phase>>
+vars == <<heap, fut, nops, destroyed, now, gen, rq, run, cst, stop, wpc, wdl, phase>>
 
 -----------------------------------------------------------------------------
 (* Part 1: the array and the libstdc++ heap algorithms.  Indices are the   *)
@@ -195,7 +192,7 @@ AllTps == TPs \cup (IF Interval # 0 THEN {Interval} ELSE {}) \cup {Inf}
 
 Init ==
     /\ heap = <<>> /\ fut = [k \in Slots |-> FreeRec]
-    /\ nops = 0 /\ destroyed = FALSE /\ now = 0 /\ gen = NoGen /\ quiet = FALSE
+    /\ nops = 0 /\ destroyed = FALSE /\ now = 0 /\ gen = NoGen
     /\ stop = FALSE /\ wpc = "poll" /\ wdl = 0
     /\ IF Mode = "manual"
          THEN /\ rq = <<>> /\ run = -1 /\ cst = <<>> /\ phase = "manual"
@@ -209,9 +206,10 @@ Init ==
 
 StartUnch == UNCHANGED <<now, rq, run, cst, stop, wpc, wdl, phase>>
 CanCall == Mode = "manual" /\ ~destroyed /\ (MaxOps = 0 \/ nops < MaxOps)
-(* last conjunct of every call: counts it and sets the ghost `quiet` *)
-Tick == /\ nops' = (IF MaxOps = 0 THEN nops ELSE nops + 1)
-        /\ quiet' = (heap' = heap /\ fut' = fut /\ gen' = gen)
+(* counts the call.  NOTE: with MaxOps = 0 a call without effect (cancel() -> false, get_expired() ->
+   time point) is a SELF LOOP of the state graph; the path cover used by the check (tools/fastcover.py)
+   walks self loops, vlib.cover_paths does not. *)
+Tick == nops' = (IF MaxOps = 0 THEN nops ELSE nops + 1)
 
 (* the interval generator resumed because its sleep ended: normally -> next = now()+dur; co_yield
    (scheduler.h:319-320) => "yield"; with an exception -> it leaves the loop (:324) => "done" *)
@@ -303,14 +301,13 @@ Destroy ==
     /\ fut' = [k \in Slots |-> FreeRec]
     /\ heap' = <<>>
     /\ gen' = IF gen.st = "sleep" THEN [gen EXCEPT !.st = "done"] ELSE gen
-    /\ quiet' = FALSE
     /\ UNCHANGED nops /\ StartUnch
 
 (* a new scheduler (and interval generator, stop source) is constructed: histories continue over
    several lifetimes, and the state graph has no dead end *)
 Construct ==
     /\ Mode = "manual" /\ destroyed
-    /\ destroyed' = FALSE /\ gen' = NoGen /\ nops' = 0 /\ quiet' = FALSE
+    /\ destroyed' = FALSE /\ gen' = NoGen /\ nops' = 0
     /\ UNCHANGED <<heap, fut>> /\ StartUnch
 
 ManualNext ==
@@ -362,7 +359,7 @@ CoSleep(c, tp, id, ntf) ==
     /\ cst' = [cst EXCEPT ![c] = [st |-> "sleep", wst |-> "none", wat |-> 0]]
     /\ Yield(rq, stop)
     /\ nops' = nops + 1
-    /\ UNCHANGED <<destroyed, now, gen, quiet, stop, wdl>>
+    /\ UNCHANGED <<destroyed, now, gen, stop, wdl>>
 
 (* bool r = sched.cancel(id[,e]): the sleeper is appended to the queue, the caller goes on *)
 CoCancel(c, id, x, k) ==
@@ -376,7 +373,7 @@ CoCancel(c, id, x, k) ==
                   /\ cst' = Woken(cst, fut[r.k].co, x, now)
              ELSE UNCHANGED <<rq, cst>>
     /\ nops' = nops + 1
-    /\ UNCHANGED <<destroyed, now, gen, quiet, run, stop, wpc, wdl, phase>>
+    /\ UNCHANGED <<destroyed, now, gen, run, stop, wpc, wdl, phase>>
 
 (* co_return; for the awaited coroutine (1) the callback of start() runs at once (symmetric transfer
    to the awaiting callback_await coroutine, async.h:229-241) and calls stps.request_stop() (:252,:270) *)
@@ -385,7 +382,7 @@ CoFinish(c) ==
     /\ cst' = [cst EXCEPT ![c] = [st |-> "done", wst |-> "none", wat |-> 0]]
     /\ stop' = (stop \/ c = 1)
     /\ Yield(rq, stop \/ c = 1)
-    /\ UNCHANGED <<heap, fut, nops, destroyed, now, gen, quiet, wdl>>
+    /\ UNCHANGED <<heap, fut, nops, destroyed, now, gen, wdl>>
 
 (* one turn of worker_coro<false> after `co_await pause()` returned, scheduler.h:388-411:
    lock; now = system_clock::now(); get_expired_lk(now);
@@ -406,7 +403,7 @@ WorkerPoll(k) ==
                   /\ IF rq = <<>>
                        THEN /\ wpc' = "wait" /\ wdl' = r.next /\ UNCHANGED <<run, rq, phase>>
                        ELSE /\ Yield(Append(rq, 0), stop) /\ UNCHANGED wdl
-    /\ UNCHANGED <<nops, destroyed, now, gen, quiet, stop>>
+    /\ UNCHANGED <<nops, destroyed, now, gen, stop>>
 
 (* _cond.wait_until(lk, x), :407, under virtual time: nobody can notify (single thread), the wait
    ends at its deadline.  wait_until(time_point::max()) never ends: the thread hangs. *)
@@ -415,13 +412,13 @@ WorkerWait ==
     /\ IF wdl = Inf
          THEN /\ phase' = "hung" /\ UNCHANGED <<now, wpc>>
          ELSE /\ now' = (IF wdl > now THEN wdl ELSE now) /\ wpc' = "poll" /\ UNCHANGED phase
-    /\ UNCHANGED <<heap, fut, nops, destroyed, gen, quiet, rq, run, cst, stop, wdl>>
+    /\ UNCHANGED <<heap, fut, nops, destroyed, gen, rq, run, cst, stop, wdl>>
 
 (* the worker ended and the queue drained: install_queue_and_call returns, start() returns (:260,:279) *)
 StartReturn ==
     /\ Mode = "start" /\ phase = "run" /\ run = -1
     /\ phase' = "returned"
-    /\ UNCHANGED <<heap, fut, nops, destroyed, now, gen, quiet, rq, run, cst, stop, wpc, wdl>>
+    /\ UNCHANGED <<heap, fut, nops, destroyed, now, gen, rq, run, cst, stop, wpc, wdl>>
 
 (* ~scheduler after start() returned: sleepers still pending are resumed (inline) with no-value *)
 DestroyAfterStart ==
@@ -431,14 +428,14 @@ DestroyAfterStart ==
     /\ heap' = <<>>
     /\ cst' = [c \in 1..NC |-> IF cst[c].st = "sleep" THEN [st |-> "done", wst |-> "canceled", wat |-> now]
                                                         ELSE cst[c]]
-    /\ UNCHANGED <<nops, now, gen, quiet, rq, run, stop, wpc, wdl>>
+    /\ UNCHANGED <<nops, now, gen, rq, run, stop, wpc, wdl>>
 
 (* start() is used again with a new scheduler: the state graph has no dead end *)
 Restart ==
     /\ Mode = "start" /\ phase = "destroyed"
     /\ nops' = 0 /\ destroyed' = FALSE /\ now' = 0 /\ stop' = FALSE /\ wpc' = "poll" /\ wdl' = 0
     /\ rq' = [i \in 1..(NC - 1) |-> i + 1] /\ run' = 1 /\ cst' = [c \in 1..NC |-> NoWake] /\ phase' = "pre"
-    /\ UNCHANGED <<heap, fut, gen, quiet>>
+    /\ UNCHANGED <<heap, fut, gen>>
 
 StartNext ==
     \/ \E c \in 1..NC, tp \in TPs, id \in Ids, ntf \in {0, 1} : CoSleep(c, tp, id, ntf)
